@@ -6,7 +6,8 @@ import (
 	"strings"
 )
 
-const TypeSocketAce uint16 = 0xFFA0
+// TypeSocketAce must be the record type the tunnel asks for and answers with (QueryTypePrivate)
+const TypeSocketAce uint16 = 65000
 
 // A crazy new RR type :)
 type SocketAcePrivate struct {
